@@ -407,9 +407,29 @@ def r6_enter_contract(r, facts):
     if not r.require(len(calls) == 1, 'enter/syscall', 'expected one io_uring_enter2 call in Shared::enter, found %d' % len(calls), f.where()):
         return
     cl, ct = calls[0]
-    # --- the timeout
-    some = [v for v in variant_edges(f, 'std::option::Option', 'Some') if not f.blocks[v['edge'][0]]['cleanup'] and v['si']['place']['l'] == 4 and not v['si']['place']['p']]
-    if r.require(len(some) >= 1, 'enter/timeout-test', 'the test of the timeout parameter was not found (unrecognised form)', f.where()):
+    # --- the timeout (the parameter of type Option<Duration>, wherever it stands)
+    tparams = {l for l in range(1, f.nargs + 1) if (f.locals[l]['ty'] or '').startswith('std::option::Option<std::time::Duration')}
+    some = [v for v in variant_edges(f, 'std::option::Option', 'Some') if not f.blocks[v['edge'][0]]['cleanup'] and v['si']['place']['l'] in tparams and not v['si']['place']['p']]
+    # the same in one expression: `args = io_uring_getevents_arg { ts: <address of Some(timespec {tv_sec: secs, tv_nsec: nanos})> or 0, .. }`
+    a0 = [eb.operand(x) for x in ct['args']]
+    arg_aggs = [x for y in a0 for x in subexprs(y) if x[0] == 'agg' and x[1].endswith('io_uring_getevents_arg') and 'ts' in x[2]]
+    agg_form = False
+    if arg_aggs:
+        e_ts = arg_aggs[0][3][list(arg_aggs[0][2]).index('ts')]
+        tss = [x for x in subexprs(e_ts) if x[0] == 'agg' and x[1].endswith('timespec') and set(x[2]) >= {'tv_sec', 'tv_nsec'}]
+        addr_of = any(x[0] == 'ref' or (x[0] == 'call' and x[1].endswith('from_ref')) for x in subexprs(e_ts))
+        if tss and addr_of:
+            agg_form = True
+            ts_ = tss[0]
+            fsec, fns = ts_[3][list(ts_[2]).index('tv_sec')], ts_[3][list(ts_[2]).index('tv_nsec')]
+            ok_s = any(x[0] == 'call' and x[1].endswith('Duration::as_secs') for x in subexprs(fsec))
+            ok_n = any(x[0] == 'call' and x[1].endswith('Duration::subsec_nanos') for x in subexprs(fns))
+            for nm_ in ('tv_sec', 'tv_nsec', 'ts'):
+                r.inst('timeout: %s set on every path from Some(timeout) to the system call: True (args.ts is the address of a timespec built from the timeout, 0 without one)' % nm_, f.where(cl))
+            r.require(ok_s, 'enter/timeout-value:tv_sec', 'timespec.tv_sec is filled with %s, not the timeout\'s as_secs()' % (str(fsec)[:100],), f.where(cl))
+            r.require(ok_n, 'enter/timeout-value:tv_nsec', 'timespec.tv_nsec is filled with %s, not the timeout\'s subsec_nanos()' % (str(fns)[:100],), f.where(cl))
+            r.require(any(x[0] == 'arg' and x[1] in tparams for x in subexprs(e_ts)), 'enter/timeout:ts', 'args.ts does not depend on the timeout parameter', f.where(cl))
+    if not agg_form and r.require(len(some) >= 1, 'enter/timeout-test', 'the test of the timeout parameter was not found (unrecognised form)', f.where()):
         start = [Loc(some[0]['edge'][1], 0)]
         want = {'tv_sec': 'as_secs', 'tv_nsec': 'subsec_nanos'}
         stores = {'tv_sec': [], 'tv_nsec': [], 'ts': []}
@@ -443,7 +463,8 @@ def r6_enter_contract(r, facts):
     has_ext = any(x[0] == 'const' and isinstance(x[1], int) and ext and x[1] & ext for y in a for x in subexprs(y))
     r.inst('io_uring_enter2(.., flags | EXT_ARG: %s, &args, size)' % has_ext, f.where(cl))
     r.require(has_ext, 'enter/ext-arg', 'IORING_ENTER_EXT_ARG is not passed: the kernel ignores the argument block (timeout) and waits without limit', f.where(cl))
-    arg_refs = [x for y in a for x in subexprs(y) if x[0] == 'ref' and x[1][0] == 'local' and (f.locals[x[1][1]]['ty'] or '').endswith('io_uring_getevents_arg')]
+    arg_refs = [x for y in a for x in subexprs(y) if x[0] == 'ref' and ((x[1][0] == 'local' and (f.locals[x[1][1]]['ty'] or '').endswith('io_uring_getevents_arg'))
+                                                                         or (x[1][0] == 'agg' and x[1][1].endswith('io_uring_getevents_arg')))]
     r.require(bool(arg_refs), 'enter/arg-pointer', 'the address of the io_uring_getevents_arg block is not passed to io_uring_enter2', f.where(cl))
     # --- waking the kernel thread
     need = facts.const('io_uring::libc::IORING_SQ_NEED_WAKEUP')
